@@ -113,14 +113,30 @@ Fixpoint build_table (es : list bytes) (E : env) : option env :=
     match x with Some x => build_table t (set_nth (N.to_nat (N_of_dec i)) x E) | None => None end
   end.
 
+(* the key field: `key`, or `key=<canon>` when the comparison dictionary B carries that value under the key instead of
+   lacking the key (array elements: the array without the planted element) *)
+Fixpoint split_eq (l : bytes) : bytes * option bytes :=
+  match l with
+  | [] => ([], None)
+  | c :: t => if c =? 61 then ([], Some t) else let (a, b) := split_eq t in (c :: a, b)
+  end.
+
 Definition run_dangling (fs : list bytes) : res (list bytes) :=
   let allow := if beqb (field fs 0) [116] then opt_tolerant_allow_error_in_option else opt_strict_allow_error_in_option in
   match ty_by_name (field fs 1), parse_canon (field fs 2), parse_canon (field fs 4),
         build_table (skipn 6 fs) (repeatN XInvalid (N.to_nat (N_of_dec (field fs 5))) ++ [XFree]) with
   | Some t, Some (PDict d), Some r, Some E =>
-    do a <- step allow E t (PDict (dinsert (field fs 3) r d));
-    let E' := match snd a with Some (_, E') => E' | None => E end in
-    do b <- step allow E' t (PDict (ddel (field fs 3) d));
-    Ok (fst a ++ [124] :: fst b)
+    let (key, alt) := split_eq (field fs 3) in
+    match (match alt with
+           | None => Some (ddel key d)
+           | Some a => match parse_canon a with Some q => Some (dinsert key q d) | None => None end
+           end) with
+    | None => Err 1000
+    | Some dB =>
+      do a <- step allow E t (PDict (dinsert key r d));
+      let E' := match snd a with Some (_, E') => E' | None => E end in
+      do b <- step allow E' t (PDict dB);
+      Ok (fst a ++ [124] :: fst b)
+    end
   | _, _, _, _ => Err 1000
   end.
